@@ -24,9 +24,9 @@ import (
 const c18Absent = "\x00absent"
 
 type c18Field struct {
-	Path string   // dotted path inside the document
+	Path string    // dotted path inside the document
 	Base [2]string // raw JSON value in the BESS / UP4 base document (c18Absent = not present)
-	Alts []string // other raw JSON values, simplest first
+	Alts []string  // other raw JSON values, simplest first
 }
 
 // the schema lattice: valid, boundary, invalid-type and invalid-value representatives per field
@@ -70,7 +70,7 @@ var c18Fields = []c18Field{
 
 // c18Doc is one concrete document: the chosen raw value per field.
 type c18Doc struct {
-	Base int            `json:"base"` // 0 BESS, 1 UP4
+	Base int               `json:"base"` // 0 BESS, 1 UP4
 	Dev  map[string]string `json:"dev"`  // path -> raw value (deviations from the base)
 }
 
